@@ -191,6 +191,18 @@ def run(ctx, ck) -> None:
         ck.expect('I5', ok, fn, 'A.I(y) = linear_solve(operand, y).value', f'the lazy inverse does not solve with its operand as matrix and its input as right-hand side: {why}', instance='solve wiring')
 
 
+    # ------------------------------------------------------------------ I6 the solve uses the configuration captured at construction
+    from . import c19
+
+    sub = type(ck)(ck.pid)
+    c19.run(ctx, sub)
+    for o in sub.obs:
+        if o.rule.endswith(('K6', 'K7')):
+            o.rule = f'{ck.pid}.I6'
+            ck.obs.append(o)
+    ck.floor('I6', sum(1 for o in ck.obs if o.rule.endswith('I6')), 6, 'capture/use obligations of the solver configuration')
+
+
 # ---------------------------------------------------------------------- closed-form schemas
 def s_homothety(ctx, table, cls, r):
     fn = r.node
